@@ -26,6 +26,7 @@ func init() {
 		p.P["method"] = r.Intn(8)
 		p.P["collide"] = r.Intn(6) // 0 = offer colliding subjects
 		p.P["distinct_tokens"] = r.Intn(3)
+		p.P["gmix"] = r.Intn(3) // 0 = everyone asks about the same group set; otherwise the same user is asked about with different sets
 		p.Choices = drawChoices(r, r.Range(10, 80))
 		return p
 	}
@@ -307,6 +308,10 @@ func subjects(p *Plan, n int) []subjectSpec {
 		out[i] = subjectSpec{email: fmt.Sprintf("user%d@example.com", j), groups: []string{"eng", "ops"}, access: fmt.Sprintf("access-%d", j), refr: fmt.Sprintf("refresh-%d", j)}
 		if i%2 == 1 {
 			out[i].groups = []string{"ops", "eng"} // same set, other order
+		}
+		if p.P["gmix"] != 0 {
+			// the same user, other sets of groups: different questions
+			out[i].groups = [][]string{{"eng", "ops"}, {"ops"}, {"eng"}, {"ops", "eng", "all"}, {"all", "eng"}}[(i/k+i*p.P["gmix"])%5]
 		}
 	}
 	if p.P["collide"] == 0 && n >= 2 {
